@@ -259,6 +259,30 @@ static void boundary (void)
       }
     }
   }
+  /* all eight constant slots taken, the 64-bit constant in slot k = 1..8 (the others 32-bit), declared in text */
+  for (i = 0; i < 8; i++) {
+    long idx = g_idx++;
+    char text[1200];
+    size_t o = 0;
+    OrcProgram **progs = NULL;
+    int np, k;
+    if (idx < g_start || (idx % nshards) != shard) continue;
+    o += snprintf (text + o, sizeof (text) - o, ".function bconst8_%d\n.dest 4 d1\n.source 4 s1\n.dest 8 d2\n.source 8 s2\n.temp 4 t1\n", i + 1);
+    for (k = 0; k < 8; k++) {
+      if (k == i) o += snprintf (text + o, sizeof (text) - o, ".const 8 c%d 0x0123456789abcdefL\n", k + 1);
+      else o += snprintf (text + o, sizeof (text) - o, ".const 4 c%d %d\n", k + 1, 1000003 * (k + 1));
+    }
+    o += snprintf (text + o, sizeof (text) - o, "copyl t1, s1\n");
+    for (k = 0; k < 8; k++) {
+      if (k == i) o += snprintf (text + o, sizeof (text) - o, "addq d2, s2, c%d\n", k + 1);
+      else o += snprintf (text + o, sizeof (text) - o, "addl t1, t1, c%d\n", k + 1);
+    }
+    o += snprintf (text + o, sizeof (text) - o, "copyl d1, t1\n");
+    np = orc_parse (text, &progs);
+    if (np == 1 && progs[0]) { check_program (progs[0], text, idx); orc_program_free (progs[0]); }
+    else viol ("structure", "eight-constants", "program with eight constants does not parse", text);
+    free (progs);
+  }
   /* every variable slot used; every parameter class; 1, 99 and 100 instructions */
   {
     static const int counts[] = { 1, 50, 99, 100 };
